@@ -238,13 +238,13 @@ def run(tier, seed=0):
             if lang == 'Lf' and n > 5: continue
             plan.append(('tokens', lang, n))
     for lang in ('Lb', 'Lf'):
-        for seed in SEEDS[lang]: plan.append(('seeded', lang, seed))
+        for sd in SEEDS[lang]: plan.append(('seeded', lang, sd))
     for n in range(0, NTXT + 1): plan.append(('text:tokenize', 'Lb', n))
     for n in range(0, NTXT + 1): plan.append(('text:pattern', 'Lb', n))
     for n in range(0, NTXT + 1): plan.append(('text:multi', 'Lb', n))
     for n in range(0, NTXT + 1): plan.append(('text:recexpr', 'Lb', n))
-    for seed in (MULTI_SEEDS[:1] if tier == 'quick' else MULTI_SEEDS): plan.append(('seeded-multi', 'Lb', seed))
-    for seed in MULTI_SPLICED: plan.append(('spliced-multi', 'Lb', seed))
+    for sd in (MULTI_SEEDS[:1] if tier == 'quick' else MULTI_SEEDS): plan.append(('seeded-multi', 'Lb', sd))
+    for sd in MULTI_SPLICED: plan.append(('spliced-multi', 'Lb', sd))
     for kind, lang, n in plan:
         before = stats['paths']; nf = len(findings); t1 = time.time()
         try:
